@@ -640,6 +640,10 @@ func (g *generator) genCase(prof string) ([]*pvcase.Case, *caseGen) {
 		malformedP = 0.75
 	}
 	c.Input = cg.makeInput(start, prof == "lr", malformedP)
+	c.Input = clampInput(c, c.Input, prof == "budget" && !divergent)
+	if o.Debug && !pvterm.Budgeted(c) && recursionFanout(c) >= 2 {
+		o.Debug = false // debug output makes every expression ~50 times slower
+	}
 	c.Fuel = fuelFor(o.MaxExpr)
 
 	out := []*pvcase.Case{c}
